@@ -27,7 +27,7 @@ Example C17_alignment_nonvacuous :
   /\ c_docs (model_coll 3 ms true app) = 3%N.
 Proof. vm_compute. auto. Qed.
 
-From C17 Require Import ProofsHist.
+From C17 Require Import ProofsHist ProofsDocs ProofsCross.
 
 (* For EVERY history of bulks into one fraction (each bulk: metas with the same ID point at the
    same document, i.e. pairwise distinct document IDs, nested metas with their parent) with
@@ -49,16 +49,56 @@ Theorem C17_first_deliveries_are_dedup :
 Proof. intros h. split; [apply first_deliveries_concat|apply first_deliveries_dedup]. Qed.
 Print Assumptions C17_first_deliveries_are_dedup.
 
+(* A bulk as the proxy builds it: documents with pairwise distinct IDs and non-empty bodies, each
+   followed by its nested metas (bulk_wf b := exists ds, wf_docs ds /\ b = pairs_of ds). Such
+   bulks satisfy bulk_ok, and removing whole documents keeps them well formed. *)
+Theorem C17_wf_bulks :
+  forall h, Forall bulk_wf h ->
+    Forall (fun b => bulk_ok (map fst b)) h /\ Forall bulk_wf (dedupb h).
+Proof. intros h F. split; [apply all_wf_ok, F|apply dedupb_wf, F]. Qed.
+Print Assumptions C17_wf_bulks.
+
 (* observe (run h) = observe (run (dedup_first h)): LID table, postings of every token,
-   DocsTotal, From, To. (The second hypothesis — the deduplicated bulks are still well formed —
-   holds whenever documents are removed whole; it is kept as a hypothesis, see the report.) *)
+   DocsTotal, From, To — for every history of well formed bulks, no further hypothesis. *)
 Theorem C17_idempotent :
-  forall h, Forall (fun b => bulk_ok (map fst b)) h -> Forall (fun b => bulk_ok (map fst b)) (dedupb h) ->
+  forall h, Forall bulk_wf h ->
     let a := run_active h in let a' := run_active (dedupb h) in
     a_ids a = a_ids a' /\ (forall t, tok_lids a t = tok_lids a' t) /\
     a_total a = a_total a' /\ a_from a = a_from a' /\ a_to a = a_to a'.
-Proof. exact idempotent. Qed.
+Proof. exact idempotent_wf. Qed.
 Print Assumptions C17_idempotent.
+
+(* Fetch serves the FIRST delivery: for every history of well formed bulks and every ID, the
+   fraction returns the bytes of the first document with that ID in the whole history (None if the
+   ID never came) — whatever bytes later repeats carry. From the SetMultiple invariant: an entry
+   is never overwritten, older entries point into older blocks. *)
+Theorem C17_fetch_first_delivery :
+  forall h, Forall bulk_wf h -> forall i, fetch (run_active h) i = ref_fetch1 (concat h) i.
+Proof. exact run_fetch. Qed.
+Print Assumptions C17_fetch_first_delivery.
+
+(* Repeats landing in other fractions (the store after the bulks of h, then for each element of hs
+   a seal followed by its bulks — the model the correspondence run executes): the merged
+   single-token search lists no ID twice and lists exactly the IDs some fraction has postings
+   for; and if every delivery of ID i carries the bytes `body` and i was delivered at all, the
+   store returns `body`. (Totals across fractions are not claimed, as in the property text.) *)
+Theorem C17_cross_fraction_listed_once :
+  forall h hs t,
+    let s := run_store (steps_of h hs) in
+    s = map run_active (h :: hs) /\
+    NoDup (search_ids s t) /\
+    (forall i, In i (search_ids s t) <->
+               exists a l, In a (nonempty s) /\ In l (tok_lids a t) /\ lid_id a l = i) /\
+    (forall i body, Forall (Forall bulk_wf) (h :: hs) ->
+       (forall h' b m bb, In h' (h :: hs) -> In b h' -> In (m, bb) b -> m_id m = i -> m_size m <> 0%N -> bb = body) ->
+       (exists h', In h' (h :: hs) /\ ref_fetch1 (concat h') i <> None) ->
+       fetch_store s i = Some body).
+Proof.
+  intros h hs t s. assert (E : s = map run_active (h :: hs)) by apply run_store_fracs.
+  split; [exact E|]. split; [apply search_ids_once|]. split; [apply search_ids_once|].
+  intros i body F Same Ex. rewrite E. apply cross_fetch; assumption.
+Qed.
+Print Assumptions C17_cross_fraction_listed_once.
 
 (* hence every single-token search — listed IDs, total, histogram, count aggregation — agrees *)
 Theorem C17_idempotent_search :
@@ -77,12 +117,34 @@ Definition ex_h : list (list (meta * N)) :=
   [[(ex_A, 0); (ex_An, 0); (ex_B, 0)]; [(ex_C, 0); (ex_A, 1); (ex_An, 1); (ex_B, 1)];
    [(ex_A, 0); (ex_An, 0); (ex_B, 0)]]%N.
 
-Example C17_history_hypotheses_hold :
-  Forall (fun b => bulk_ok (map fst b)) ex_h /\ Forall (fun b => bulk_ok (map fst b)) (dedupb ex_h).
+Definition ex_dA (v : N) := mkDoc (1005, 1)%N 30%N [1; 5; 0]%N [[2; 0]%N] v.
+Definition ex_dB (v : N) := mkDoc (1010, 2)%N 25%N [2; 0]%N [] v.
+Definition ex_dC := mkDoc (1001, 3)%N 40%N [1; 6; 0]%N [] 0%N.
+
+Example C17_history_hypotheses_hold : Forall bulk_wf ex_h.
 Proof.
-  split; repeat constructor; intros blk v1 v2; simpl;
-    intuition (subst; simpl in *; congruence).
+  assert (W : forall ds, NoDup (map d_id ds) -> Forall (fun d => d_size d <> 0%N) ds -> bulk_wf (pairs_of ds))
+    by (intros ds A B; exists ds; split; [split; assumption|reflexivity]).
+  repeat constructor.
+  - apply (W [ex_dA 0%N; ex_dB 0%N]); repeat constructor; simpl; intuition discriminate.
+  - apply (W [ex_dC; ex_dA 1%N; ex_dB 1%N]); repeat constructor; simpl; intuition discriminate.
+  - apply (W [ex_dA 0%N; ex_dB 0%N]); repeat constructor; simpl; intuition discriminate.
 Qed.
+
+(* the repeat of A in bulk 2 carries other bytes (1): the first delivery's bytes (0) are served *)
+Example C17_fetch_nonvacuous :
+  fetch (run_active ex_h) (1005, 1)%N = Some 0%N /\ ref_fetch1 (concat ex_h) (1005, 1)%N = Some 0%N
+  /\ fetch (run_active ex_h) (7, 7)%N = None.
+Proof. vm_compute. auto. Qed.
+
+(* bulk 1 lands in fraction 1, is re-delivered after a seal into fraction 2 together with C *)
+Example C17_cross_nonvacuous :
+  let h := [pairs_of [ex_dA 0%N; ex_dB 0%N]] in
+  let hs := [[pairs_of [ex_dC; ex_dA 0%N; ex_dB 0%N]]] in
+  let s := run_store (steps_of h hs) in
+  search_ids s 2%N = [(1010, 2); (1005, 1)]%N /\ search_ids s 0%N = [(1010, 2); (1005, 1); (1001, 3)]%N
+  /\ fetch_store s (1005, 1)%N = Some 0%N /\ map a_total s = [3; 4]%N.
+Proof. vm_compute. auto. Qed.
 
 Example C17_history_nonvacuous :
   a_ids (run_active ex_h) = [sys_id; (1005, 1); (1005, 1); (1010, 2); (1001, 3)]%N
